@@ -1086,8 +1086,8 @@ fn check_reader(out: &mut Out, st: &mut Stats, rng: &mut Rng, case: &Case, bytes
                 ks.iter().map(|k| key_s(k)).collect::<Vec<_>>().join(" "), rs.join(" ")));
         }
     }
-    // the other two lookup methods of the trait: lookup_first_n_phrases (a prefix of lookup_all_phrases holding
-    // at least min(n, all) phrases) and lookup_first_phrase (its first element)
+    // the other two lookup methods of the trait: lookup_first_n_phrases (exactly the first min(n, all) phrases of
+    // lookup_all_phrases: at most n, a prefix, nothing missing) and lookup_first_phrase (its first element)
     for fuzzy in [false, true] {
         let pool: &Vec<Vec<u16>> = if fuzzy { &fq } else { &qs };
         let mut sel: Vec<Vec<u16>> = pool.iter().take(if fuzzy { 6 } else { rm.len().min(6) + 2 }).cloned().collect();
@@ -1110,8 +1110,8 @@ fn check_reader(out: &mut Out, st: &mut Stats, rng: &mut Rng, case: &Case, bytes
                 if got.len() < all.len() {
                     st.first_n_cut += 1;
                 }
-                if !(all.starts_with(&got) && got.len() >= n.min(all.len())) {
-                    fail(out, st, &format!("lookup_first_n_phrases({}, {}, {}) = {} is not a prefix of lookup_all_phrases = {} with at least min(n, all) phrases ({})",
+                if got[..] != all[..n.min(all.len())] {
+                    fail(out, st, &format!("lookup_first_n_phrases({}, {}, {}) = {} is not the first n phrases of lookup_all_phrases = {} ({})",
                         key_s(q), n, tag, phs_s(&got), phs_s(all), who), case);
                 }
                 results.push(phs_s(&got));
